@@ -39,4 +39,10 @@ CHECKS = {
         text="PackingAgrees/HashAgrees: the bit string the circuit hashes is abi.encodePacked of the fields and the recomposed digest is keccak mod r, for every class vector TLC enumerates. Leg A: helpers must return the spec hash for every byte-length class of roots/commitments, index class and batch size (one- and two-block inputs). Leg B: every document the code produces must carry the spec's hash and be accepted by the real circuit.",
         note="Trusted: Keccak.tla (KATs + per-case cross-check with x/crypto); gnark test engine for circuit acceptance. Value classes, not all field elements.",
     ),
+    "C18": dict(
+        level="model_checking",
+        technique="TLA+ state machine of the persistent node algorithm next to the abstract leaf map (PoseidonTree.tla over Merkle.tla), model-checked for all histories at depth <= 3; every history replayed into the real PoseidonTree through a term interpreter; recorded random histories validated by a TLC trace specification with the real Poseidon",
+        text="PoseidonTree.tla transcribes withValue/writeProof over materialised nodes and states RootIsRecomputation, ProofAuthenticates, OthersUnchanged, CachedHashes, EmptyTable; TLC checks them for every history of <= 4 updates at depth 1..3 (symbolic injective hash). All those histories, plus simulated histories over candidate paths at depth 8..32, are applied to the real tree and Root()/proof compared with the interpretation of the spec's terms after each step. In the other direction seeded random histories recorded from the real tree (depth up to 32) are accepted by TraceTree.tla instantiated with Poseidon over BN254, with the invariants evaluated after every step.",
+        note="Trusted: collision-freeness of Poseidon in the symbolic instance (explicit assumption); the iden3 reference used by the interpreter (bound to the spec by C05's KATs); exhaustive only up to depth 3 / 4 updates.",
+    ),
 }
